@@ -231,6 +231,7 @@ var basicTypes = map[string]types.Type{
 	"uint": types.Typ[types.Uint], "uint8": types.Typ[types.Uint8], "uint16": types.Typ[types.Uint16], "uint32": types.Typ[types.Uint32], "uint64": types.Typ[types.Uint64],
 	"byte": types.Typ[types.Uint8], "bool": types.Typ[types.Bool], "string": types.Typ[types.String], "uintptr": types.Typ[types.Uintptr],
 	"float64": types.Typ[types.Float64], "rune": types.Typ[types.Int32], "error": types.Universe.Lookup("error").Type(),
+	"any": types.Universe.Lookup("any").Type(),
 }
 
 func (cx *evalCtx) resolveType(s string) (types.Type, error) {
@@ -251,6 +252,21 @@ func (cx *evalCtx) lookupPkg(name string) *types.Package {
 	for _, p := range cx.pkg.Imports() {
 		if p.Name() == name {
 			return p
+		}
+	}
+	// an import alias used in the package's source files
+	if lp := cx.run.eng.byPath[cx.pkg.Path()]; lp != nil {
+		for _, f := range lp.Syntax {
+			for _, im := range f.Imports {
+				if im.Name != nil && im.Name.Name == name {
+					path := strings.Trim(im.Path.Value, "\"")
+					for _, p := range cx.pkg.Imports() {
+						if p.Path() == path {
+							return p
+						}
+					}
+				}
+			}
 		}
 	}
 	// any loaded package with that name
@@ -997,18 +1013,22 @@ func (cx *evalCtx) call(x *ast.CallExpr) (TV, error) {
 			if err != nil {
 				return TV{}, err
 			}
+			// with several map iterations in scope: the one that starts last in the source (the innermost / latest loop)
 			var it TV
-			n := 0
+			n, best := 0, -1
 			for name, v := range cx.st.vars {
 				if strings.HasPrefix(name, "iter#") {
 					if tv, ok := v.(TV); ok {
-						it = tv
+						p, _ := strconv.Atoi(strings.TrimPrefix(name, "iter#"))
+						if p > best {
+							best, it = p, tv
+						}
 						n++
 					}
 				}
 			}
-			if n != 1 {
-				return TV{}, fmt.Errorf("seen(): %d map iterations in scope (need exactly one)", n)
+			if n == 0 {
+				return TV{}, fmt.Errorf("seen(): no map iteration in scope")
 			}
 			rg, ok := it.T.(*types.Map)
 			_ = rg
